@@ -24,9 +24,10 @@
        for every nesting of every fragment except thresh and the multisig leaves ([icover]);
        the arithmetic facts about script numbers are the same hypotheses as in C01.
      * the two refutations.
-   constraints_exact, interp_policy, interp_complete and the uncovered fragments are checked per
+     * interp_policy: proved in full.
+   constraints_exact, interp_complete and the uncovered fragments of interp_sound are checked per
    run by the oracle (tools/props/c13.py), not proved. *)
-From Verif Require Import Exec Ser Ast Types TypeCheck InterpModel InterpRefine InterpSound InterpRefuted InterpMain.
+From Verif Require Import Exec Ser Ast Types TypeCheck InterpModel InterpRefine InterpSound InterpRefuted InterpMain InterpPolicy.
 Local Open Scope N_scope.
 
 Theorem interp_is_recursive :
@@ -45,6 +46,16 @@ Theorem interp_sound_partial :
       accepts e (enc ke m) (rev items) = true.
 Proof. exact interp_sound_sidecond. Qed.
 Print Assumptions interp_sound_partial.
+
+(* the reported constraints satisfy the lifted policy: [psat ke cs m] is the truth value of
+   lift(m) in the world where exactly the reported constraints hold.  Every fragment, every
+   environment, no side condition. *)
+Theorem interp_policy :
+  forall (e : env) (ke : keyenv) (kp : bytes -> bool) (m : ms) (t : ty) (st : astack) (cs : list constr),
+    type_of m = ROk t -> c_base (t_corr t) = BB ->
+    interp e ke kp m st = IAccept cs -> psat ke cs m = true.
+Proof. exact interp_policy_holds. Qed.
+Print Assumptions interp_policy.
 
 (* finding (DESIGN 10-h): evaluate_after ignores BIP65's "nSequence must not be final" *)
 Theorem interp_sound_refuted :
